@@ -19,7 +19,7 @@ FUNCS = CALLEES + [
     'supla_esp_cfg_init', 'supla_esp_gpio_rs_task_processing', 'supla_esp_channel_set_value',
     'supla_esp_gpio_rs_apply_new_config', 'supla_esp_gpio_fb_apply_new_config',
     'supla_esp_cfgmode_enter_ap_mode', 'supla_esp_connectcb', 'supla_esp_cfgmode_started',
-    'supla_esp_cfgmode_entertime', 'supla_esp_cfgmode_clear_vars',
+    'supla_esp_cfgmode_entertime', 'supla_esp_cfgmode_clear_vars', 'supla_esp_recv_callback',
     # handlers reachable from the dispatcher
     'supla_esp_on_remote_call_received', 'srpc_getdata', 'srpc_rd_free', 'uptime_sec', 'supla_log',
     'supla_esp_on_version_error', 'supla_esp_on_register_result', 'supla_esp_channelgroup_set_value',
@@ -154,7 +154,6 @@ G.GROUPS['C12Consts'] = _LazyGroup(
         ('RS_RELAY_OFF_', 'RS_RELAY_OFF'), ('RS_RELAY_UP_', 'RS_RELAY_UP'), ('RS_RELAY_DOWN_', 'RS_RELAY_DOWN'),
         # inputs
         ('PRESS_TIME_MS', 'CFG_BTN_PRESS_TIME'),
-        ('PRESS_TIME_FN_MS', 'GET_CFG_PRESS_TIME((supla_input_cfg_t*)0)'),
         ('PRESS_COUNT', 'CFG_BTN_PRESS_COUNT'),
         ('CYCLE_TIME_MS', 'INPUT_CYCLE_TIME'),
         ('HOLD_TIME_MS', 'BTN_HOLD_TIME_MS'),
